@@ -116,7 +116,7 @@ def classify_files(files, boot):
     return live, sure, corrupt
 
 
-def accept_sets(files, boot, unit, limit, force, primary_only=False, details=None):
+def accept_sets(files, boot, unit, limit, force, primary_only=False, details=None, leave_corrupt=False):
     """All deletion sets the statement allows.  files: dicts name/kind/ts/cmds/size/locked.
     Returns (set of frozenset(names), decision label of the primary reading); `details` (a list)
     receives (candidate deletion prefix, label) of every reading."""
@@ -124,7 +124,7 @@ def accept_sets(files, boot, unit, limit, force, primary_only=False, details=Non
     accept, label = set(), None
     # an unreadable member is either left alone (None) or collected as a file of its mtime with 0 / its
     # nominal number of commands
-    options = [[None, 0] + ([f["cmds"]] if f["cmds"] else []) for f in corrupt]
+    options = [[None] if leave_corrupt else [None, 0] + ([f["cmds"]] if f["cmds"] else []) for f in corrupt]
     for variant in itertools.product(*options):
         cands = list(sure)
         for f, v in zip(corrupt, variant):
@@ -153,8 +153,8 @@ def classify_mismatch(files, boot, unit, limit, force, deleted, refused_msg):
     for s in sure:
         if s["name"] not in deleted and any(s["ts"] < d["ts"] for d in readable_deleted):
             return "not-oldest-first"
-    details = []
-    accept_sets(files, boot, unit, limit, force, details=details)
+    details = []  # judged against the reading that matches what happened to the unreadable members
+    accept_sets(files, boot, unit, limit, force, details=details, leave_corrupt=not (deleted & {f["name"] for f in corrupt}))
     labels = {lab for _, lab in details}
     if not deleted:
         return "refused-but-must-run" if refused_msg else "under-delete:deleted-nothing"
